@@ -285,7 +285,7 @@ def make_state(rng, cand, d, rip, want_fault=None, force_T=None):
     for start, prot in ((AREA_RW, 3), (AREA_RO, 1), (AREA_NONE, 0), (AREA_RWX, 7), (STACK, 3), (AREA_HI, 3)):
         areas.append([start, PAGE, prot, {}])
     code = code[:ln]
-    case = dict(seg=d["seg"], base=d["base"], nb64=int(d["nb64"], 16), code=bytes(code), rip=rip, regs=regs, xmm=xmm, flags=flags, fs=fs, gs=gs, areas=areas,
+    case = dict(named=[d[x] for x in ("r0", "r1", "r2", "r3", "base", "index")], seg=d["seg"], base=d["base"], nb64=int(d["nb64"], 16), code=bytes(code), rip=rip, regs=regs, xmm=xmm, flags=flags, fs=fs, gs=gs, areas=areas,
                 placement=placement, codename=d["code"])
     # windows of random data around interesting addresses
     wins = []
